@@ -4,9 +4,11 @@ go 1.26.1
 
 require (
 	github.com/DrmagicE/gmqtt v0.0.0
+	github.com/gomodule/redigo v1.8.2
 	github.com/gorilla/websocket v1.4.2
 	go.uber.org/zap v1.13.0
 	google.golang.org/grpc v1.79.3
+	gopkg.in/yaml.v2 v2.4.0
 )
 
 require (
@@ -14,7 +16,6 @@ require (
 	github.com/beorn7/perks v1.0.1 // indirect
 	github.com/cespare/xxhash/v2 v2.3.0 // indirect
 	github.com/golang/protobuf v1.5.4 // indirect
-	github.com/gomodule/redigo v1.8.2 // indirect
 	github.com/google/btree v1.0.0 // indirect
 	github.com/google/uuid v1.6.0 // indirect
 	github.com/grpc-ecosystem/go-grpc-middleware v1.0.0 // indirect
@@ -46,7 +47,6 @@ require (
 	golang.org/x/text v0.35.0 // indirect
 	google.golang.org/genproto v0.0.0-20230410155749-daa745c078e1 // indirect
 	google.golang.org/protobuf v1.36.11 // indirect
-	gopkg.in/yaml.v2 v2.4.0 // indirect
 )
 
 replace github.com/DrmagicE/gmqtt => /repo
